@@ -309,6 +309,26 @@ Section Proofs.
       unfold pq_accepts, Formats.pq_write_gate. destruct (find_shape (pname g) (pq_wbranches P)); [discriminate | reflexivity].
     Qed.
 
+    (* a guarded kind with no / several controls is refused by the guard itself *)
+    Lemma pq_write_gate_guarded (g : pgate) :
+      pq_accepts P (pname g) = true -> smem (pname g) (pq_w_single_ctrl P) = true ->
+      (forall c0, pcontrol g <> Some [c0]) -> exists e, pq_write_gate Ang P g = Err e.
+    Proof.
+      unfold pq_accepts, Formats.pq_write_gate. intros Ha Hg Hc.
+      destruct (find_shape (pname g) (pq_wbranches P)); [|discriminate].
+      unfold Formats.pq_guard. rewrite Hg.
+      destruct (pcontrol g) as [[|c0 [|c1 r]]|] eqn:E; simpl; try (eexists; reflexivity).
+      exfalso. apply (Hc c0). reflexivity.
+    Qed.
+    Theorem pq_refuses_multicontrol (c : fcirc Ang) (g : pgate) :
+      In g (fgates c) -> pq_accepts P (pname g) = true -> smem (pname g) (pq_w_single_ctrl P) = true ->
+      (forall c0, pcontrol g <> Some [c0]) -> exists e, pq_write Ang P c = Err e.
+    Proof.
+      intros Hin Ha Hg Hc. unfold Formats.pq_write.
+      destruct (mapM_err_in (pq_write_gate Ang P) (fgates c) g Hin (pq_write_gate_guarded g Ha Hg Hc)) as [e He].
+      rewrite He. eexists. reflexivity.
+    Qed.
+
     (* a circuit containing a gate of a kind outside the accepted set is refused as a whole *)
     Theorem writers_refuse_unsupported (c : fcirc Ang) (g : pgate) :
       In g (fgates c) ->
@@ -390,13 +410,14 @@ Section Proofs.
       apply andb_prop in Hs. destruct Hs as [Hse Hs].
       destruct (rlookup w (pq_names P)) as [n'|] eqn:Hr; [|discriminate].
       repeat (apply andb_prop in Hs; destruct Hs as [Hs ?]).
-      rename H into HC, H0 into Har. apply arity_eqb_eq in Har.
+      rename H into HG, H0 into HC, H1 into Har. apply arity_eqb_eq in Har.
       assert (Hig : forall pa qs, pq_is_ignored (PQLine w pa qs) = false).
       { intros. unfold Formats.pq_is_ignored. simpl. apply negb_true_iff. assumption. }
       destruct sh; destruct sh'; try discriminate; simpl in *.
       - (* PQS1 *) subst p.
         assert (c = None) as ->.
         { destruct c as [cl|]; [|reflexivity]. rewrite (valid_control_C _ _ _ _ _ Hv) in HC. discriminate. }
+        unfold Formats.pq_guard; simpl. apply negb_true_iff in HG. rewrite HG. simpl.
         eexists. split; [reflexivity|]. split; [apply Hig|].
         unfold Formats.pq_read_line. simpl. rewrite Hsh', Hr. simpl.
         pose proof (valid_rename n [q] None PNone v n' PNone false Hv Har ltac:(intro X; contradiction)) as Hm.
@@ -404,11 +425,15 @@ Section Proofs.
       - (* PQS1p *) destruct Hx as [a ->].
         assert (c = None) as ->.
         { destruct c as [cl|]; [|reflexivity]. rewrite (valid_control_C _ _ _ _ _ Hv) in HC. discriminate. }
+        unfold Formats.pq_guard; simpl. apply negb_true_iff in HG. rewrite HG. simpl.
         eexists. split; [reflexivity|]. split; [apply Hig|].
         unfold Formats.pq_read_line. simpl. rewrite Hsh', Hr. simpl.
         pose proof (valid_rename n [q] None (PNum a) v n' (PNum a) false Hv Har ltac:(intro X; contradiction)) as Hm.
         simpl in Hm. rewrite Hm. eexists. split; [reflexivity|]. exists n'. split; [assumption | reflexivity].
       - (* PQS2 *) destruct Hx as [-> [c0 ->]]. simpl.
+        assert (HGd : pq_guard Ang P (PGate n [q] (Some [c0]) PNone v) = Ok tt).
+        { unfold Formats.pq_guard; simpl. destruct (smem n (pq_w_single_ctrl P)); reflexivity. }
+        rewrite HGd. simpl.
         eexists. split; [reflexivity|]. split; [apply Hig|].
         unfold Formats.pq_read_line. simpl. rewrite Hsh', Hr. simpl.
         pose proof (valid_rename n [q] (Some [c0]) PNone v n' PNone false Hv Har ltac:(intros _; assumption)) as Hm.
